@@ -418,11 +418,11 @@ func e6CtlCase(seed uint64, n int) Case {
 func init() {
 	register("E6", func(tier string, seed uint64) []Case {
 		var cases []Case
-		n := tierPick(tier, 240, 5000)
+		n := tierPick(tier, 240, 20000)
 		for i := 0; i < n; i++ {
 			cases = append(cases, e6Case(seed, i, i%8 == 7))
 		}
-		m := tierPick(tier, 80, 1500)
+		m := tierPick(tier, 80, 6000)
 		for i := 0; i < m; i++ {
 			cases = append(cases, e6CtlCase(seed, i))
 		}
